@@ -22,9 +22,11 @@ class Violation(Exception):
 
 # --------------------------------------------------------------------------- solver ladder
 
-def _solve(constraints, timeout_ms):
+def _solve(constraints, timeout_ms, rlimit=None):
     s = z3.Solver()
     s.set("timeout", int(timeout_ms))
+    if rlimit:
+        s.set("rlimit", int(rlimit))
     for c in constraints:
         s.add(c)
     t = time.time()
@@ -658,7 +660,7 @@ class Runner:
 
     def _reach(self, P, ctx, tag):
         res = self.res
-        r, s, dt = _solve(P.constraints(2), self.budget.reach_timeout)
+        r, s, dt = _solve(P.constraints(2), self.budget.reach_timeout, rlimit=3000000)
         res.reach[r if r in res.reach else "unknown"] += 1
         if r == "sat" and res.validated + len(res.validation_mismatch) < 12:
             # validate the path witness against the real implementation
